@@ -130,9 +130,9 @@ def scratchCap : Nat := 4097
 
 /-- uv_cwd (core.c:753-789).  `getcwd(buf, n)` succeeds iff `len + 1 ≤ n` and then stores the path and
 its terminator.  When it fails with ERANGE the Linux syscall stores nothing, but glibc's fallback for
-paths of PATH_MAX bytes and more builds the path backwards from the end of the buffer before giving up:
-`residue` is what the failed call left in the caller's buffer (an OS outcome; libc contract: inside the
-buffer).  Second attempt into `scratch`; if that is too small as well the errno (ERANGE) is returned.
+paths of PATH_MAX bytes and more builds the path backwards from the end of the buffer (and moves it to
+the front on success): `residue` is what that left in the caller's buffer besides the result (an OS
+outcome; libc contract: inside the buffer; `[]` whenever the kernel answers itself).  Second attempt into `scratch`; if that is too small as well the errno (ERANGE) is returned.
 `fixup` strips one trailing slash. -/
 def cwdR (v : List Byte) (size : Nat) (residue : Writes) : Result :=
   if size = 0 then ⟨EINVAL, [], size⟩
@@ -140,13 +140,13 @@ def cwdR (v : List Byte) (size : Nat) (residue : Writes) : Result :=
     let len := v.length
     let strip : Bool := decide (len > 1 ∧ v[len - 1]? = some slash)
     if len + 1 ≤ size then
-      if strip then ⟨0, memcpyW 0 (v ++ [0]) ++ [(len - 1, 0)], len - 1⟩
-      else ⟨0, memcpyW 0 (v ++ [0]), len⟩
+      if strip then ⟨0, residue ++ memcpyW 0 (v ++ [0]) ++ [(len - 1, 0)], len - 1⟩
+      else ⟨0, residue ++ memcpyW 0 (v ++ [0]), len⟩
     else if len + 1 ≤ scratchCap then
       ⟨ENOBUFS, residue, (if strip then len - 1 else len) + 1⟩
     else ⟨ERANGE, residue, size⟩
 
-/-- the common case: the failed first `getcwd` left the buffer alone -/
+/-- the common case: `getcwd` stores the result and nothing else -/
 def cwd (v : List Byte) (size : Nat) : Result := cwdR v size []
 
 /-- uv_exepath (procfs-exepath.c:28-46): `n = *size - 1; if (n > 0) n = readlink(.., buffer, n);`
